@@ -386,13 +386,16 @@ pub struct NetGen {
     pub acyclic: bool,
     /// hooks may await several asks concurrently (`j(..)` steps)
     pub joins: bool,
+    /// when > 0: hooks ask upwards except once in `back` times (few programs then contain a real cycle,
+    /// many contain "A asks B now, B asks A later")
+    pub back: u64,
 }
 
 impl NetGen {
     pub fn new(seed: u64) -> Self {
         let mut rng = Rng::new(seed);
         let len = 8 + rng.below(30) as usize;
-        NetGen { rng, len, emitted: 0, closing: 0, acyclic: false, joins: false }
+        NetGen { rng, len, emitted: 0, closing: 0, acyclic: false, joins: false, back: 0 }
     }
 
     pub fn new_acyclic(seed: u64) -> Self {
@@ -402,7 +405,8 @@ impl NetGen {
     }
 
     fn target(&mut self, n: usize, me: usize) -> Option<usize> {
-        if self.acyclic {
+        let up = self.acyclic || (self.back > 0 && !self.rng.chance(1, self.back));
+        if up {
             if me >= n {
                 return None;
             }
@@ -519,3 +523,76 @@ impl NetGen {
         })
     }
 }
+
+// ------------------------------------------------------------------------------------------ oracles
+/// The statement of C15 (and the no-one-stuck part of C14) evaluated on one real history, with no model:
+/// (1) a deadlock panic of actor a on its ask to b is justified only if a = b or, at that moment, a chain of
+///     unanswered in-flight asks leads from b to a;  (2) in a program whose hooks only ask higher-numbered
+///     peers no deadlock panic is ever justified;  (3) whenever no ask is in flight the wait-for map is empty.
+pub fn history_oracles(trace: &[String], acyclic: bool) -> Vec<String> {
+    let mut out = vec![];
+    // in-flight, unanswered: (caller, callee, mid)
+    let mut open: Vec<(usize, usize, u64)> = vec![];
+    // started and not yet returned to the caller (answered or not)
+    let mut pending: Vec<(usize, u64)> = vec![];
+    let mut last_ask: std::collections::BTreeMap<usize, (usize, u64, Vec<(usize, usize, u64)>)> = Default::default();
+    let num = |s: &str| s.parse::<u64>().unwrap_or(0);
+    for l in trace {
+        let ws: Vec<&str> = l.split_whitespace().collect();
+        match ws.as_slice() {
+            ["N", "askStart", a, b, mid] => {
+                let (a, b, mid) = (num(a) as usize, num(b) as usize, num(mid));
+                last_ask.insert(a, (b, mid, open.clone()));
+                open.push((a, b, mid));
+                pending.push((a, mid));
+            }
+            ["N", "hEnd", _b, mid, _out] => {
+                let mid = num(mid);
+                // ok: the reply is sent; panic: the callee dies and the ask is lost - either way the caller no longer waits for it
+                open.retain(|e| e.2 != mid);
+            }
+            ["N", "askRet", _a, mid, _] => {
+                let mid = num(mid);
+                open.retain(|e| e.2 != mid);
+                pending.retain(|e| e.1 != mid);
+            }
+            ["N", "joined", a, rest @ ..] => {
+                let a = num(a) as usize;
+                if rest.first() == Some(&"deadlock") {
+                    if let Some((b, mid, before)) = last_ask.get(&a) {
+                        let mut reach = vec![*b];
+                        let mut changed = true;
+                        while changed {
+                            changed = false;
+                            for e in before {
+                                if reach.contains(&e.0) && !reach.contains(&e.1) {
+                                    reach.push(e.1);
+                                    changed = true;
+                                }
+                            }
+                        }
+                        let justified = a == *b || before.iter().any(|e| reach.contains(&e.0) && e.1 == a);
+                        if acyclic {
+                            out.push(format!("actor {a} panicked with a deadlock report on its ask {mid} to {b} although no chain of in-flight asks can exist: hooks of this program only ask higher-numbered peers"));
+                        } else if !justified {
+                            out.push(format!("actor {a} panicked with a deadlock report on its ask {mid} to {b} although no chain of unanswered in-flight asks led from {b} to {a} (open asks then: {before:?})"));
+                        }
+                    }
+                }
+                // a dead actor's asks are over; asks to it are lost
+                open.retain(|e| e.0 != a && e.1 != a);
+                pending.retain(|e| e.0 != a);
+            }
+            ["N", "graph", g] => {
+                if pending.is_empty() && *g != "-" {
+                    out.push(format!("wait-for graph: {g} although every ask has finished (no ask is in flight)"));
+                }
+            }
+            ["N", "poisoned", "true"] => out.push("the wait-for lock is poisoned".into()),
+            _ => {}
+        }
+    }
+    out.truncate(3);
+    out
+}
+
